@@ -598,6 +598,19 @@ fn release(me: usize, lock: usize, mode: Mode) {
   }
 }
 
+/// a guard is about to be dropped: with try_* in play, let other threads run while the lock is still held
+fn before_release(me: usize) {
+  if TRY_USED.load(ss::atomic::Ordering::SeqCst) && !std::thread::panicking() {
+    let g = match RT.lock() {
+      Ok(g) => g,
+      Err(_) => return,
+    };
+    if g.as_ref().map(|r| r.aborted.is_none() && r.threads[me].state == ThState::Runnable).unwrap_or(false) {
+      reschedule(g, me);
+    }
+  }
+}
+
 pub struct RwLock<T> {
   inner: ss::RwLock<T>,
   id: LockId,
@@ -654,6 +667,100 @@ impl<T> RwLock<T> {
     }
   }
 }
+/// non-blocking acquisition: a schedule point first (so that other threads may get in), then the lock is taken iff the
+/// model says it is free; never blocks
+/// set once the code under test uses a try_* operation in this process: from then on a lock *release* is a schedule point
+/// too, because only a non-blocking attempt can observe for how long a lock is held
+static TRY_USED: ss::atomic::AtomicBool = ss::atomic::AtomicBool::new(false);
+fn try_acquire(me: usize, lock: usize, mode: Mode) -> bool {
+  TRY_USED.store(true, ss::atomic::Ordering::SeqCst);
+  {
+    let g = RT.lock().unwrap();
+    reschedule(g, me);
+  }
+  with_rt(|rt| {
+    // a waiting writer does not make try_read fail in std's futex implementation; only actual holders count
+    let l = &rt.locks[lock];
+    let free = match mode {
+      Mode::W => l.writer.is_none() && l.readers.is_empty(),
+      Mode::R => l.writer.is_none(),
+    };
+    if free {
+      match mode {
+        Mode::W => rt.locks[lock].writer = Some(me),
+        Mode::R => rt.locks[lock].readers.push(me),
+      }
+      if rt.log_locks {
+        let site = rt.locks[lock].site.clone();
+        rt.ev(me, format!("acq {:?} #{} {}", mode, lock, site));
+      }
+    }
+    free
+  })
+}
+impl<T> RwLock<T> {
+  pub fn try_read(&self) -> std::sync::TryLockResult<RwLockReadGuard<'_, T>> {
+    match active() {
+      None => match self.inner.try_read() {
+        Ok(g) => Ok(RwLockReadGuard { g: Some(g), rel: None }),
+        Err(TryLockError::WouldBlock) => Err(TryLockError::WouldBlock),
+        Err(TryLockError::Poisoned(e)) => Err(TryLockError::Poisoned(PoisonError::new(RwLockReadGuard { g: Some(e.into_inner()), rel: None }))),
+      },
+      Some(me) => {
+        let id = self.id.get(false);
+        if !try_acquire(me, id, Mode::R) {
+          return Err(TryLockError::WouldBlock);
+        }
+        match self.inner.try_read() {
+          Ok(g) => Ok(RwLockReadGuard { g: Some(g), rel: Some((me, id)) }),
+          Err(TryLockError::Poisoned(e)) => Err(TryLockError::Poisoned(PoisonError::new(RwLockReadGuard { g: Some(e.into_inner()), rel: Some((me, id)) }))),
+          Err(TryLockError::WouldBlock) => panic!("vstd model/real lock mismatch (try_read)"),
+        }
+      }
+    }
+  }
+  pub fn try_write(&self) -> std::sync::TryLockResult<RwLockWriteGuard<'_, T>> {
+    match active() {
+      None => match self.inner.try_write() {
+        Ok(g) => Ok(RwLockWriteGuard { g: Some(g), rel: None }),
+        Err(TryLockError::WouldBlock) => Err(TryLockError::WouldBlock),
+        Err(TryLockError::Poisoned(e)) => Err(TryLockError::Poisoned(PoisonError::new(RwLockWriteGuard { g: Some(e.into_inner()), rel: None }))),
+      },
+      Some(me) => {
+        let id = self.id.get(false);
+        if !try_acquire(me, id, Mode::W) {
+          return Err(TryLockError::WouldBlock);
+        }
+        match self.inner.try_write() {
+          Ok(g) => Ok(RwLockWriteGuard { g: Some(g), rel: Some((me, id)) }),
+          Err(TryLockError::Poisoned(e)) => Err(TryLockError::Poisoned(PoisonError::new(RwLockWriteGuard { g: Some(e.into_inner()), rel: Some((me, id)) }))),
+          Err(TryLockError::WouldBlock) => panic!("vstd model/real lock mismatch (try_write)"),
+        }
+      }
+    }
+  }
+}
+impl<T> Mutex<T> {
+  pub fn try_lock(&self) -> std::sync::TryLockResult<MutexGuard<'_, T>> {
+    match active() {
+      None => match self.inner.try_lock() {
+        Ok(g) => Ok(MutexGuard { g: Some(g), m: self, rel: None }),
+        Err(TryLockError::WouldBlock) => Err(TryLockError::WouldBlock),
+        Err(TryLockError::Poisoned(e)) => Err(TryLockError::Poisoned(PoisonError::new(MutexGuard { g: Some(e.into_inner()), m: self, rel: None }))),
+      },
+      Some(me) => {
+        let id = self.id.get(true);
+        if !try_acquire(me, id, Mode::W) {
+          return Err(TryLockError::WouldBlock);
+        }
+        match self.take_real(me, id) {
+          Ok(g) => Ok(g),
+          Err(e) => Err(TryLockError::Poisoned(e)),
+        }
+      }
+    }
+  }
+}
 impl<'a, T> std::ops::Deref for RwLockReadGuard<'a, T> {
   type Target = T;
   fn deref(&self) -> &T {
@@ -662,6 +769,9 @@ impl<'a, T> std::ops::Deref for RwLockReadGuard<'a, T> {
 }
 impl<'a, T> Drop for RwLockReadGuard<'a, T> {
   fn drop(&mut self) {
+    if let Some((me, _)) = self.rel {
+      before_release(me);
+    }
     self.g.take();
     if let Some((me, id)) = self.rel {
       release(me, id, Mode::R);
@@ -681,6 +791,9 @@ impl<'a, T> std::ops::DerefMut for RwLockWriteGuard<'a, T> {
 }
 impl<'a, T> Drop for RwLockWriteGuard<'a, T> {
   fn drop(&mut self) {
+    if let Some((me, _)) = self.rel {
+      before_release(me);
+    }
     self.g.take();
     if let Some((me, id)) = self.rel {
       release(me, id, Mode::W);
